@@ -51,6 +51,11 @@ func c12Case(r *evid.Run, tier string, idx int, g *rng.R) {
 	o := adoc.GenOpts{MinNodes: 5, MaxNodes: 35, NS: 1 + g.Intn(2), Misc: true, Weird: g.P(30), Lang: true, NoXMLNS: g.P(20)}
 	d := adoc.Generate(g, o)
 	w, err := newWorld(d)
+	if err == nil && idx%4 == 3 {
+		// every fourth case runs the evaluator on the independent Cursor implementation (R-ref)
+		w, err = newRefWorld(d)
+		r.Count("cases_on_reference_cursor", 1)
+	}
 	if err != nil {
 		r.Inconclusive("store tree mismatch: " + err.Error())
 		return
